@@ -69,13 +69,12 @@ desc: lzma_index_dup: the duplicate reports the same uncompressed_size, total_si
 id: C13.dup.leak
 props: C10 C13
 entry: h_index_dup
-tier: thorough
 defs: -DDUP_LEAK_ONLY=1
-unwind: 8
+unwind: 4
 kind: bounded
 bound: same shape; the k-th allocation fails, every k
 cbmc: --no-malloc-may-fail
-timeout: 400
+timeout: 600
 fn: lzma_index_dup index_dup_stream lzma_index_end index_stream_end
 sentinels: 2
 expect: 30
